@@ -245,7 +245,9 @@ func (a Arg) Coq() string {
 }
 
 type CbStep struct {
-	mut   byte // 0 none, 'p' put, 'd' delete, 'a' append at length
+	mut   byte // 0 none, 'p' put, 'd' delete, 'a' append at length; on the element being visited: 'P' put, 'D' delete, 'G' redefine as counting getter
+	gid   int
+	gp    int
 	k     Key
 	v     V
 	throw bool
@@ -261,6 +263,12 @@ func (c CbStep) JS() string {
 		m = fmt.Sprintf("function(){delete R[%s]}", c.k.JS())
 	case 'a':
 		m = fmt.Sprintf("function(){var n=R.length>>>0;R[n]=%s;if(!ISARR)R.length=n+1}", c.v.JS())
+	case 'P':
+		m = fmt.Sprintf("function(i){R[i]=%s}", c.v.JS())
+	case 'D':
+		m = "function(i){delete R[i]}"
+	case 'G':
+		m = fmt.Sprintf("function(i){Object.defineProperty(R,i,{get:mkg(%d,%d),enumerable:true,configurable:true})}", c.gid, c.gp)
 	}
 	return fmt.Sprintf("{m:%s,t:%s,r:%s}", m, Cbool(c.throw), c.ret.JS())
 }
@@ -273,6 +281,12 @@ func (c CbStep) Coq() string {
 		m = fmt.Sprintf("(MDel %s)", c.k.Coq())
 	case 'a':
 		m = fmt.Sprintf("(MAppend %s)", c.v.Coq())
+	case 'P':
+		m = fmt.Sprintf("(MPutCur %s)", c.v.Coq())
+	case 'D':
+		m = "MDelCur"
+	case 'G':
+		m = fmt.Sprintf("(MGetCur %d %d)", c.gid, c.gp)
 	}
 	return fmt.Sprintf("(mkCb %s %s %s)", m, Cbool(c.throw), c.ret.Coq())
 }
@@ -329,7 +343,11 @@ func (o Op) JS() string { // an expression, guarded against 2^32-step loops by a
 	if !constTime(o.m) {
 		g = "(R.length>>>0)>200 ? SKIP : "
 	}
-	return fmt.Sprintf("%s(S=[%s],K=0,step(function(){return AP.%s.call(R%s)}))", g, strings.Join(cs, ","), methods[o.m], strings.Join(as, ""))
+	ci := 1
+	if o.m == 15 || o.m == 16 {
+		ci = 2
+	}
+	return fmt.Sprintf("%s(S=[%s],K=0,CI=%d,step(function(){return AP.%s.call(R%s)}))", g, strings.Join(cs, ","), ci, methods[o.m], strings.Join(as, ""))
 }
 
 func (o Op) Coq() string {
@@ -368,6 +386,7 @@ type Recv struct {
 	proto  map[int64]Prop
 	onAP   bool // inherited properties live on Array.prototype (else Object.prototype)
 	lenGet bool // array-like whose length is a getter that logs every read (returns *length)
+	getters map[int][2]int // index -> (id, payload): the element is a counting getter without setter
 }
 
 func (r Recv) protoKeys() []int64 {
@@ -406,6 +425,11 @@ func (r Recv) JS() string {
 			fmt.Fprintf(&b, "LG=true;NLV=%s;Object.defineProperty(R,\"length\",{get:function(){LOG+=\"9;\";return NLV},enumerable:true,configurable:true});", r.length.JS())
 		}
 	}
+	for i := 0; i < len(r.elems)+2; i++ {
+		if gp, ok := r.getters[i]; ok {
+			fmt.Fprintf(&b, "Object.defineProperty(R,\"%d\",{get:mkg(%d,%d),enumerable:true,configurable:true});", i, gp[0], gp[1])
+		}
+	}
 	return b.String()
 }
 
@@ -417,7 +441,9 @@ func (r Recv) Coq() string {
 		own = append(own, fmt.Sprintf("(KLen, mkP %s true true true)", r.length.Coq()))
 	}
 	for i, e := range r.elems {
-		if e != nil {
+		if gp, ok := r.getters[i]; ok {
+			own = append(own, fmt.Sprintf("(KI %d, mkP (VGet %d %d) false true true)", i, gp[0], gp[1]))
+		} else if e != nil {
 			own = append(own, fmt.Sprintf("(KI %d, mkP %s true true true)", i, e.Coq()))
 		}
 	}
@@ -430,14 +456,15 @@ func (r Recv) Coq() string {
 
 // ---------- the script prelude (string-only helpers: inherited index properties must not disturb it) ----------
 
-const prelude = `var G=this, T={}, AP=Array.prototype, LOG="", K=0, S=[], SKIP="SKIP\n", OUT="", LG=false, NLV;
+const prelude = `var G=this, T={}, AP=Array.prototype, LOG="", K=0, S=[], SKIP="SKIP\n", OUT="", LG=false, NLV, CI=1;
+function mkg(id,p){ var g=function(){LOG+="8,i"+id+";";return p}; g.gid=id; g.gp=p; return g; }
 var HOP=Object.prototype.hasOwnProperty;
 function enc(v){
  if(v===undefined)return "u"; if(v===null)return "n"; if(v===true)return "t"; if(v===false)return "f";
  if(typeof v==="number"){ if(v!==v)return "dNaN"; if(v===Infinity)return "dInf"; if(v===-Infinity)return "d-Inf";
   if(v===0&&1/v<0)return "d-0"; if(Math.floor(v)===v&&Math.abs(v)<=9007199254740992)return "i"+v; return "g"+v; }
  if(typeof v==="string"){ var h="s"; for(var i=0;i<v.length;i++){h+=v.charCodeAt(i)+"."} return h; }
- if(v===R)return "R"; if(v===T)return "T"; if(v===G)return "G"; if(Array.isArray(v))return "A"; return "o";
+ if(v===R)return "R"; if(v===T)return "T"; if(v===G)return "W"; if(Array.isArray(v))return "A"; return "o";
 }
 function encarr(r){ var s="A"; for(var i=0;i<r.length;i++){ s+=(i?",":"")+(HOP.call(r,i)?enc(r[i]):"h"); } return s; }
 function encrv(r){
@@ -449,7 +476,7 @@ function dump(o){
  var n=Object.getOwnPropertyNames(o), s=Object.isExtensible(o)?"E":"N";
  for(var i=0;i<n.length;i++){ var d=Object.getOwnPropertyDescriptor(o,n[i]); var h="";
   for(var j=0;j<n[i].length;j++){h+=n[i].charCodeAt(j)+"."}
-  var vs; if(HOP.call(d,"value")){vs=enc(d.value)+":"+(d.writable?1:0)}else if(LG&&n[i]==="length"){vs=enc(NLV)+":1"}else{vs="ACC:0"}
+  var vs; if(HOP.call(d,"value")){vs=enc(d.value)+":"+(d.writable?1:0)}else if(LG&&n[i]==="length"){vs=enc(NLV)+":1"}else if(d.get&&HOP.call(d.get,"gid")){vs="G"+d.get.gid+"_"+d.get.gp+":0"}else{vs="ACC:0"}
   s+="|"+h+":"+vs+(d.enumerable?1:0)+(d.configurable?1:0); }
  return s;
 }
@@ -457,7 +484,7 @@ function cb(){
  var n=K++, e=""+(this===G?0:(this===T?1:2));
  for(var i=0;i<arguments.length;i++){ e+=","+enc(arguments[i]); }
  LOG+=e+";";
- if(n<S.length){ var s=S[n]; if(s.m)s.m(); if(s.t)throw new URIError("cb"); return s.r; }
+ if(n<S.length){ var s=S[n]; if(s.m)s.m(arguments[CI]); if(s.t)throw new URIError("cb"); return s.r; }
 }
 function step(f){
  var s; LOG="";
@@ -507,9 +534,15 @@ func decVal(tok string) (string, bool) { // Coq val term
 		return vNum(f).Coq(), true
 	case 's':
 		return "(VStr " + decUnits(tok[1:]) + ")", true
+	case 'G':
+		var id, gp int
+		if _, err := fmt.Sscanf(tok, "G%d_%d", &id, &gp); err != nil {
+			return "", false
+		}
+		return fmt.Sprintf("(VGet %d %d)", id, gp), true
 	case 'R':
 		return "(VBool true)", true // "is the receiver"
-	case 'T', 'G', 'A', 'o':
+	case 'T', 'W', 'A', 'o':
 		return "(VBool false)", true
 	}
 	return "", false
